@@ -62,7 +62,8 @@ func (prop) Describe() kernel.Description {
 	}
 }
 
-var concrete = []string{"application/json", "text/plain", "application/xml", "application/vnd.sim+json", "text/csv", "application/octet-stream", "image/png"}
+// the first six may be registered; the rest are never registered (near misses of wildcard entries included)
+var concrete = []string{"application/json", "text/plain", "application/xml", "application/vnd.sim+json", "text/csv", "application/octet-stream", "image/png", "textual/plain", "applicationx/json", "tex/plain"}
 var consumesPool = []string{"application/json", "text/plain", "application/xml", "application/vnd.sim+json", "text/*", "application/*", "*/*",
 	"application/json; charset=utf-8", "text/plain;version=1"}
 
